@@ -127,6 +127,30 @@ class VCtxWrite(_FloatOp):
         return FloatDataType(data.data + 1.0)
 
 
+DEFAULT_NEST = {"alpha": 1, "limits": {"lo": 0, "hi": 9}}
+
+
+def reversed_order(d):
+    """Same content, reversed key insertion order at every depth."""
+    if isinstance(d, dict):
+        return {k: reversed_order(d[k]) for k in reversed(list(d))}
+    return d
+
+
+class VNestWrite(_FloatOp):
+    """Writes context key nest = the nested mapping it received (or a default one) with its keys inserted in reverse order:
+    equal content, different layout.  Data passes through."""
+
+    @classmethod
+    def context_keys(cls):
+        return ["nest"]
+
+    def _process_logic(self, data, nest: dict = None):
+        _log("VNestWrite", nest=nest)
+        self._notify_context_update("nest", reversed_order(nest if nest is not None else DEFAULT_NEST))
+        return FloatDataType(data.data)
+
+
 class VBadWrite(_FloatOp):
     """Writes an undeclared context key."""
 
@@ -146,6 +170,17 @@ class VFail(_FloatOp):
     def _process_logic(self, data):
         _log("VFail")
         raise THE_ERROR
+
+
+EMPTY_ERROR = RuntimeError()  # str() == "": a legal exception with no message at all
+
+
+class VFailEmpty(_FloatOp):
+    """Always raises one singleton RuntimeError that carries no message."""
+
+    def _process_logic(self, data):
+        _log("VFailEmpty")
+        raise EMPTY_ERROR
 
 
 class VInterrupt(_FloatOp):
@@ -182,6 +217,22 @@ class VSum(DataOperation):
         return FloatDataType(float(sum(item.data for item in data.data)))
 
 
+class VKwMul(_FloatOp):
+    """Multiply by factor; factor is keyword-only and has no default."""
+
+    def _process_logic(self, data, *, factor: float):
+        _log("VKwMul", factor=factor)
+        return FloatDataType(data.data * factor)
+
+
+class VKwTwo(_FloatOp):
+    """data * factor + addend; addend is keyword-only (default 0.5)."""
+
+    def _process_logic(self, data, factor: float, *, addend: float = 0.5):
+        _log("VKwTwo", factor=factor, addend=addend)
+        return FloatDataType(data.data * factor + addend)
+
+
 class _FloatProbe(DataProbe):
     @classmethod
     def input_data_type(cls):
@@ -201,6 +252,22 @@ class VGainProbe(_FloatProbe):
 
     def _process_logic(self, data, gain: float = 1.0):
         _log("VGainProbe", gain=gain)
+        return data.data * gain
+
+
+class VEchoProbe(_FloatProbe):
+    """Returns a NEW data object of the input's own type (value + 1): a probe result may be anything, the data still passes through."""
+
+    def _process_logic(self, data):
+        _log("VEchoProbe")
+        return FloatDataType(data.data + 1.0)
+
+
+class VKwGainProbe(_FloatProbe):
+    """Returns value * gain; gain is keyword-only (default 1.0)."""
+
+    def _process_logic(self, data, *, gain: float = 1.0):
+        _log("VKwGainProbe", gain=gain)
         return data.data * gain
 
 
